@@ -113,7 +113,10 @@ class StubConnection(object):
         """Bytes arrive from the peer (event context): handed to the stub's
         wire thread, which parses them with the real decoder and makes them
         available to recv_handler."""
-        self._arrivals.append(raw)
+        from bromelia.base import DiameterMessage
+        with self.wb.sim.untraced():
+            msgs = DiameterMessage.load(raw)     # parsing "on the wire" costs no simulated time
+        self._arrivals.extend(msgs)
         t = self._wire
         if t is not None and t.state == "blocked":
             self.wb.sim.wake(t)
@@ -123,9 +126,7 @@ class StubConnection(object):
         sim = self.wb.sim
         while True:
             while self._arrivals:
-                raw = self._arrivals.pop(0)
-                for m in DiameterMessage.load(raw):
-                    self.inbox.put(m)
+                self.inbox.put(self._arrivals.pop(0))
             sim.block(("wire", self.index))
 
     def start_wire(self):
@@ -225,7 +226,7 @@ class WorldB(object):
 def draw_sched_b(rng):
     pol = rng.choice(["random", "random", "sticky", "line", "opcode", "stall"])
     d = {"policy": pol, "p_sync": 0.15, "p_line": 0.0, "opcode": False,
-         "quantum": rng.choice([1e-6, 2e-6, 1e-5, 5e-5])}
+         "quantum": rng.choice([1e-7, 2e-7, 5e-7, 1e-6, 2e-6])}
     if pol == "sticky":
         d["p_sync"] = rng.choice([0.01, 0.03])
     elif pol in ("random", "stall"):
@@ -241,8 +242,10 @@ def draw_sched_b(rng):
 
 
 def draw_knobs_b(rng):
+    # the shipped values are ticker 0.1 ms << PROCESS_TIMER 1 ms: several per-message threads sit in
+    # the same barrier window and are released together.  Keep that relation in most runs.
     return {
-        "BROMELIA_TICKER": rng.choice([0.0005, 0.001, 0.002, 0.005]),
-        "PROCESS_TIMER": rng.choice([0.0005, 0.001, 0.002]),
+        "BROMELIA_TICKER": rng.choice([0.0001, 0.0002, 0.0005, 0.001, 0.002]),
+        "PROCESS_TIMER": rng.choice([0.001, 0.001, 0.002, 0.005]),
         "SEND_THRESHOLD_TICKER": rng.choice([0.001, 0.005, 0.02, 0.05]),
     }
